@@ -237,7 +237,7 @@ class Doc:
 # ------------------------------------------------------------------ faults
 
 FAULT_KINDS = ["bad-date", "non-gregorian", "headline-text", "indent", "bad-entry", "reversed-range", "shifted-placeholder",
-               "second-open", "summary-blank-start", "blank-inside", "stray-text", "blank-continuation"]
+               "second-open", "summary-blank-start", "blank-inside", "stray-text", "blank-continuation", "stray-cr"]
 
 def inject_fault(doc, rng):
     """returns (bytes, 1-based line of the first non-conforming line, kind) or None if not applicable"""
@@ -264,7 +264,7 @@ def inject_fault(doc, rng):
         bad = rng.choice(["2021-02-29", "1900-02-29", "2020-04-31", "2020-02-30", "2023/06/31"])
         lines[start] = bad + rest_of_headline(); at = start
     elif kind == "headline-text":
-        lines[start] = lines[start].rstrip(" \t") + rng.choice([" foo", " (8h)", " 8h!", " (8h!) x", " ()", " (", " (8h!", " (foo!)", " (8h! 9h!)", " - note"]); at = start
+        lines[start] = lines[start].rstrip(" \t") + rng.choice([" foo", " (8h)", " 8h!", " (8h!) x", " ()", " (", " (8h!", " (foo!)", " (8h! 9h!)", " - note", " \ufffdfoo", " \ufffd", "\t\ufffd x"]); at = start
         if rec.should is not None and lines[start].count("(") > 1:
             pass
     elif kind == "indent":
@@ -320,6 +320,19 @@ def inject_fault(doc, rng):
         if not rec.entries: return None
         k = rng.randrange(len(rec.entries)); at = epos[k] + 1
         lines.insert(at, rec.ind + rec.ind + rng.choice(["\u00a0", "\u3000", " \u00a0", "\u2003\t", "\u00a0 "]))
+    elif kind == "stray-cr":
+        # a carriage return that is not part of a CRLF line ending belongs to the text of its line: after a date, a
+        # should-total or an entry value without summary it makes that value malformed (`2020-01-01\r\r\n`, or a lone
+        # `\r` as the last byte of the file)
+        cands = [start] if lines[start] == lines[start].rstrip(" \t") else []
+        cands += [epos[i] for i, e in enumerate(rec.entries) if e.first is None and not e.more and e.kind != "open"
+                  and lines[epos[i]] == lines[epos[i]].rstrip(" \t")]
+        if not cands: return None
+        at = rng.choice(cands)
+        if doc.eol == "\n" and not (at == len(lines) - 1 and not doc.final_newline):
+            return None        # `x\r\n` in an LF file is simply a CRLF line
+        if doc.eol == "mixed": return None
+        lines[at] = lines[at] + "\r"
     else:
         return None
     return doc.render_lines(lines), at + 1, kind
